@@ -33,6 +33,22 @@ SIGMA_PATTERNS = {
     "mixed": [1e-6, 1e3, 1.0, 1e-3, 7.3],
     "mixed2": [0.31, 2.5e-5, 40.0, 1.0, 6e4],
 }
+# added: NON-UNIFORM uncertainties at extreme absolute scales (SI-unit data: nano-amps, micro-metres, mega-watts) and NEARLY equal
+# uncertainties (relative spread 1e-6 / 1e-9).  The data are prediction + r * sigma_i as everywhere in the lattice, so residual / sigma
+# stays the O(1)..1e4 alphabet; the reference is evaluated on the same floats and the tolerance CTOL*eps*sum|terms| (~1e-15 relative to
+# the chi-squared) resolves a relative change of 1e-9 in any single sigma_i whenever the residuals are not all tiny.
+_NONUNIFORM = [1.0, 3.0, 2.0, 6.0, 4.5]
+SIGMA_PATTERNS_EXTRA = {
+    "nonuniform@1e-9": [t * 1e-9 for t in _NONUNIFORM],
+    "nonuniform@1e-6": [t * 1e-6 for t in _NONUNIFORM],
+    "nonuniform@1e6": [t * 1e6 for t in _NONUNIFORM],
+    "nearly-equal(1e-6)@1": [1.0 + k * 1e-6 for k in (0, 3, 1, 4, 2)],
+    "nearly-equal(1e-9)@1": [1.0 + k * 1e-9 for k in (0, 3, 1, 4, 2)],
+    "nearly-equal(1e-6)@1e-9": [1e-9 * (1.0 + k * 1e-6) for k in (0, 3, 1, 4, 2)],
+    "nearly-equal(1e-9)@1e6": [1e6 * (1.0 + k * 1e-9) for k in (0, 3, 1, 4, 2)],
+    "nearly-equal(1e-6)@0.37": [0.37 * (1.0 + k * 1e-6) for k in (4, 0, 2, 1, 3)],
+}
+SIGMA_PATTERNS.update(SIGMA_PATTERNS_EXTRA)
 
 X_GRID = [-1.0, 0.25, 0.5, 2.0, 3.5]  # abscissae of the linear / quadratic models
 
@@ -134,6 +150,8 @@ def ev_lattice(case):
     fails, tags, nev = [], set(), 0
     slack = {}
     last = None
+    # own failure keys for the added extreme-scale / nearly-equal uncertainty patterns
+    ksuf = ("-with-nearly-equal-uncertainties" if case["sigma"].startswith("nearly") else "-with-non-uniform-uncertainties-at-extreme-scale") if case["sigma"] in SIGMA_PATTERNS_EXTRA else ""
     for ridx in case["vectors"]:
         r = [alphabet[k] for k in ridx]
         y = [predl[i] + r[i] * sig[i] for i in range(n)]
@@ -157,9 +175,10 @@ def ev_lattice(case):
         tol = CTOL * EPS * float(sc)
         err = abs(mp.mpf(float(v)) - ref) if np.isfinite(v) else mp.inf
         s = float(err) / tol if err != mp.inf else float("inf")
-        slack[f"value/{kind}"] = max(slack.get(f"value/{kind}", 0.0), s if s == s else float("inf"))
+        sname = f"value/{kind}" + ("/added-uncertainty-patterns" if ksuf else "")
+        slack[sname] = max(slack.get(sname, 0.0), s if s == s else float("inf"))
         if not (err <= tol):
-            fails.append(fail(f"value/{cls.__name__}/log-density", f"value {float(v)!r} vs reference {mp.nstr(ref, 20)} (err {mp.nstr(err, 5)}, tol {tol:.3g}) r={r} sigma={sig}", observed=float(v), expected=mp.nstr(ref, 25), **det))
+            fails.append(fail(f"value/{cls.__name__}/log-density{ksuf}", f"value {float(v)!r} vs reference {mp.nstr(ref, 20)} (err {mp.nstr(err, 5)}, tol {tol:.3g}) r={r} sigma={sig}", observed=float(v), expected=mp.nstr(ref, 25), **det))
         # ---- gradient
         g = np.asarray(g)
         if g.shape != (p,):
@@ -176,9 +195,10 @@ def ev_lattice(case):
                 else:
                     ok = ej <= tolj
                     sj = float(ej) / tolj if ej != mp.inf else float("inf")
-                slack[f"gradient/{kind}"] = max(slack.get(f"gradient/{kind}", 0.0), sj)
+                gname = f"gradient/{kind}" + ("/added-uncertainty-patterns" if ksuf else "")
+                slack[gname] = max(slack.get(gname, 0.0), sj)
                 if not ok:
-                    fails.append(fail(f"gradient/{cls.__name__}/derivative", f"d/dtheta[{j}] = {gj!r} vs reference {mp.nstr(gref[j], 20)} (tol {tolj:.3g}) r={r} sigma={sig}", observed=g.tolist(), expected=[mp.nstr(t, 25) for t in gref], **det))
+                    fails.append(fail(f"gradient/{cls.__name__}/derivative{ksuf}", f"d/dtheta[{j}] = {gj!r} vs reference {mp.nstr(gref[j], 20)} (tol {tolj:.3g}) r={r} sigma={sig}", observed=g.tolist(), expected=[mp.nstr(t, 25) for t in gref], **det))
                     break
         # ---- exact negatives
         if not (np.ndim(c) == 0 and (float(c) == -float(v) or (c != c and v != v))):
@@ -603,6 +623,20 @@ def run(ck):
                             rot = (seed + ti) % 5
                             for b in range(0, len(vecs), 150):
                                 cases.append({"kind": kind, "sigma": sg, "model": model, "theta": theta, "n": n, "form": form, "rot": rot, "alphabet": alphabet, "vectors": vecs[b : b + 150]})
+    # added: non-uniform uncertainties at absolute scales 1e-9 / 1e-6 / 1e6 and nearly equal uncertainties (relative spread 1e-6 / 1e-9)
+    xcount = 0
+    for kind in R.KINDS:
+        for sg in SIGMA_PATTERNS_EXTRA:
+            for mi, model in enumerate(models):
+                for ti in range(1 if quick else 3):
+                    theta = THETA_MENU[model][(ti + mi + seed) % len(THETA_MENU[model])]
+                    for n in (2, 3, 5):
+                        for form in (["array", "list"] if n == 2 else ["array"]):
+                            vecs = residual_vectors(n, alphabet, "all" if (n == 2 or (n == 3 and not quick and ti == 0)) else "windows")
+                            for b in range(0, len(vecs), 150):
+                                cases.append({"kind": kind, "sigma": sg, "model": model, "theta": theta, "n": n, "form": form, "rot": (seed + ti + mi) % 5, "alphabet": alphabet, "vectors": vecs[b : b + 150]})
+                                xcount += 1
+    ck.extra["extreme_and_nearly_equal_uncertainty_cases"] = xcount
     ck.run_cases("lattice", cases, chunk=1)
     ncases = []
     for kind in R.KINDS:
@@ -635,11 +669,19 @@ def run(ck):
         "overwrite (before the first call or between two calls): the caller writes the NEXT data set / rescaled uncertainties into the very objects it passed (ndarray[...] =, list[:] =, "
         "inner-list items) and every call must return bit for bit what a fresh object built from copies of the ORIGINAL numbers returns; distinct = (class, argument, form, container, overwrite position)."
     )
+    ck.rule += (
+        "  Added uncertainty patterns (same lattice evaluator; keys value/<Class>/log-density-with-non-uniform-uncertainties-at-extreme-scale, ..-with-nearly-equal-uncertainties, gradient/<Class>/derivative-with-..): "
+        "for each class x forward model x n in {2,3,5} the uncertainties are (i) the non-uniform vector (1,3,2,6,4.5) x 1e-9, x 1e-6, x 1e6 and (ii) NEARLY equal vectors s0 (1 + k d), k a permutation of 0..4, "
+        "d in {1e-6, 1e-9}, s0 in {1, 0.37, 1e-9, 1e6}; data = prediction + r sigma_i over the same residual alphabet, so residual / sigma stays on the alphabet at every absolute scale; value and gradient "
+        "against the 50-digit reference on the same floats with the unchanged tolerance 16 eps sum|terms| (which resolves a 1e-9 relative change of one sigma_i for the non-tiny residual vectors)."
+    )
+    ck.assume("uncertainties 'of any scale' is exercised at absolute scales 1e-9 .. 6e6 (non-uniform) and with relative spreads 1e-6 / 1e-9 between the uncertainties of one object; a likelihood may not replace nearly equal "
+              "uncertainties by a common one, since the stated value is the sum of log-densities with the GIVEN scale of each datum")
     ck.assume("ownership: the property speaks of the data and uncertainties the object was GIVEN, so in-place changes the caller makes to its own containers after construction are not inputs of any method; "
               "tuples / numbers are immutable and only counted; the forward model and Jacobian callables are not mutated")
     ck.assume("input forms: which container forms the constructors accept is not part of the claim (any may be refused with ValueError / TypeError); a single number given as the uncertainty of n > 1 data points, "
               "if accepted, can only mean that uncertainty for every point")
-    ck.assume("residuals are the listed multiples of sigma (up to 1e4 sigma), sigma in 1e-6..6e4, n <= 5, three forward models returning 1-D float arrays")
+    ck.assume("residuals are the listed multiples of sigma (up to 1e4 sigma), sigma in 1e-9..6e6, n <= 5, three forward models returning 1-D float arrays")
     ck.assume("the forward model's float output and Jacobian are taken as exact inputs of the likelihood (the property is about the likelihood given predictions)")
     ck.assume(f"quadrature clauses use the stated convention |integral-1| <= {QUAD_TOL:g} + 10 x quadrature error estimate (double-precision integrand)")
     ck.extra["residual_alphabet_sigma_units"] = alphabet
